@@ -15,6 +15,17 @@ def jobs_for(tier, rng):
         Ws, extra, Ns, ntup = range(1, 7), 8, range(1, 4), 60
     else:
         Ws, extra, Ns, ntup = range(1, 13), 40, range(1, 7), 500
+    # histories: consecutive calls IN ONE PROCESS whose stacked outputs have the same shape (rows, N*W) but another
+    # split of N*W into sensors and window - a memo keyed on the output shape would serve the wrong index map
+    # (groups of 4 so that a group never straddles two chunks of the parallel map)
+    pairs = [((n1, w1), (n2, w2)) for n1 in Ns for w1 in Ws for n2 in Ns for w2 in Ws
+             if n1 * w1 == n2 * w2 and n1 < n2]
+    rng.shuffle(pairs)
+    for (n1, w1), (n2, w2) in pairs[:12 if tier == "quick" else 60]:
+        rows = rng.choice([2, 3, 5])
+        a = ((rows + w1 - 1,), w1, n1, 3, rng.randrange(1 << 30))
+        b = ((rows + w2 - 1,), w2, n2, 3, rng.randrange(1 << 30))
+        jobs += [a, b, a, ((rows + w2 - 1, rows + w2 - 1), w2, n2, 3, rng.randrange(1 << 30))]
     for W in Ws:
         for T in range(W, W + extra + 1):
             for N in Ns:
